@@ -159,6 +159,30 @@ def run(ctx):
     for k, (fmt, n, n0) in enumerate([("klmLac", 12, 32762), ("klmLac", 12, 65520), ("podLac", 12, 32750),
                                       ("klmGac", 12, 14980), ("podGac", 12, 14980)]):
         check_pass(ctx, fmt, n, "walk", ctx.seed * 1000 + 500 + k, False, drv, n0=n0)
+    if ctx.thorough or getattr(ctx, "escalated", False):
+        # a LONG full-resolution pass (4200 lines) with flagged lines near its start and far into it: the coordinates are
+        # blanked on exactly those lines, wherever in the pass they are
+        import io
+        import warnings
+        n = 4200
+        pb = filegen.PassBuilder(ctx, "klmLac", n, random.Random(repr((ctx.seed, "c07long"))))
+        flagged = np.zeros(n, dtype=bool)
+        flagged[[5, 13, 2050, 4101, 4109, 4155]] = True
+        pb.quality[flagged] = [1 << b_ for b_ in (31, 28, 27, 31, 28, 27)]
+        r = filegen.reader_class("klmLac")(tle_dir=filegen.tle_dir(ctx), tle_name="TLE_%(satname)s.txt", interpolate_coords=False)
+        data_ = pb.tobytes()
+        r.read(pb.dsname, fileobj=io.BytesIO(data_))
+        del data_
+        with warnings.catch_warnings():
+            warnings.simplefilter("ignore")
+            lons, lats = r.get_lonlat()
+        nanrow = np.isnan(np.asarray(lons)).all(axis=1) & np.isnan(np.asarray(lats)).all(axis=1)
+        anynan = np.isnan(np.asarray(lons)).any(axis=1) | np.isnan(np.asarray(lats)).any(axis=1)
+        if not (np.array_equal(nanrow, flagged) and np.array_equal(anynan, flagged) and np.array_equal(np.asarray(r.mask), flagged)):
+            ctx.violation("klmLac pass of %d lines, flagged lines %s: coordinates are blanked on lines %s (mask %s)" % (
+                n, np.nonzero(flagged)[0].tolist(), np.nonzero(anynan)[0].tolist()[:12], np.nonzero(np.asarray(r.mask))[0].tolist()[:12]),
+                {"fmt": "klmLac", "n": n, "stream": "long-pass", "flagged": np.nonzero(flagged)[0].tolist()}, cls="long-pass:lonlat")
+        ctx.case(("klmLac", "long", n), nontrivial=True, branch="long-pass")
     if ctx.thorough:   # masks alone over many more words (cheap: no pipeline)
         rng = ctx.rng
         for fam in ("klm", "pod"):
